@@ -65,10 +65,10 @@ ASSUME \A a \in DOMAIN Alpha : \A s \in DOMAIN Alpha[a].cp :
           /\ (Alpha[a].cp[s] \in Joiners) <=> (s \in {"J", "N"})
 
 Sc   == Alpha[alpha].sc
-Run  == [i \in DOMAIN syms |-> SymClass(syms[i])]
-Cps  == [i \in DOMAIN syms |-> Alpha[alpha].cp[syms[i]]]
+Run  == TLCEval([i \in DOMAIN syms |-> SymClass(syms[i])])
+Cps  == TLCEval([i \in DOMAIN syms |-> Alpha[alpha].cp[syms[i]]])
 VisSeq == SelectSeq([i \in DOMAIN syms |-> i], LAMBDA i : Cps[i] \notin Joiners)
-IdsV(vis, f) == LET tab == ExpTab[Sc][LangIdx(Sc, lang)] IN [k \in DOMAIN vis |-> tab[f[vis[k]]]]
+IdsV(vis, f) == LET tab == ExpTab[Sc][LangIdx(Sc, lang)] IN TLCEval([k \in DOMAIN vis |-> tab[f[vis[k]]]])
 
 LangsTried(a) == {""} \cup {Langs(Alpha[a].sc)[2].tag, "ZZZ "}
 Bound(a, l)   == IF l = "" THEN LenMain[a] ELSE LenLang
@@ -105,14 +105,11 @@ FontFaithful ==
                  => ExpTab[Sc][k][fo] # ExpTab[Sc][k][fo2]
         /\ (fo \in Langs(Sc)[k].feats \cup {"none"}) => IdForm(Sc, ExpTab[Sc][k][fo]) = fo
 
-\* smallest set of defect readings that reproduces the full code model on this run: normally the
-\* defects whose removal changes the outcome; the general search only when those interact
+\* the first (smallest) set of defect readings under which the full code model conforms on this run,
+\* modulo the Dev_ readings - the attribution Trace_Joining makes for an observation equal to it
 MinDefects(vis, c, codeIds) ==
-  LET ok(S)  == codeIds \in {IdsV(vis, f) : f \in AllFormsC(S, Sc, c)}     \* modulo the Dev_ readings
-      needed == {d \in Defects : ~ok(Defects \ {d})}
-  IN IF ok(needed) THEN needed
-     ELSE CHOOSE S \in SUBSET Defects :
-             ok(S) /\ \A S2 \in SUBSET Defects : ok(S2) => Cardinality(S) <= Cardinality(S2)
+  LET ok(S) == codeIds \in {IdsV(vis, f) : f \in AllFormsC(S, Sc, c)}
+  IN OrderedDefectSets[FirstOk(ok)]
 
 Emit ==
   /\ (syms = <<>> /\ lang = "" /\ alpha \in Scripts) => PrintT(<<"FONT", ToJson(FontDesc(Sc))>>)
@@ -131,4 +128,5 @@ Emit ==
 \* ---- bounds -------------------------------------------------------------------
 LenQuick    == [arab |-> 5, arab2 |-> 4, syrc |-> 5, syrc2 |-> 4]
 LenThorough == [arab |-> 6, arab2 |-> 5, syrc |-> 6, syrc2 |-> 5]
+LenFont     == [arab |-> 0, arab2 |-> 0, syrc |-> 0, syrc2 |-> 0]      \* prints the FONT lines only (--replay)
 =============================================================================
